@@ -66,7 +66,7 @@ def sample(case):
     return {"group": [MEMBERS[i] for i in case["group"]], "file": case["file"], "method": case["method"], "if_all_agree": case["agree"]}
 
 
-KEYS = ["vars", "priv", "scan_count", "match_count", "is_valid"]
+KEYS = ["vars", "priv", "scan_count", "match_count", "is_valid", "stopped", "last_line"]  # last_line: the line position the member ended on
 
 
 def run_case(case):
@@ -105,6 +105,11 @@ def run_case(case):
         who = IDS[mi] or "noid"
         pub, priv = run.split_vars(r.csvpath.variables)
         g = {"vars": pub, "priv": priv, "scan_count": r.csvpath.scan_count, "match_count": r.csvpath.match_count, "is_valid": r.csvpath.is_valid}
+        try:
+            g["last_line"] = r.csvpath.line_monitor.physical_line_number if r.csvpath.scanner is not None else None
+        except Exception:  # noqa: BLE001
+            g["last_line"] = None
+        g["stopped"] = r.csvpath.stopped
         for key in KEYS:
             if g[key] != a[key]:
                 bad(f"member {who}: {key} differs from the standalone run", g[key], a[key], who)
